@@ -13,6 +13,7 @@ LEAFSETS = {
     'f5': [T.A('s', ()), T.A('a', (2,)), T.A('A', (2, 2)), T.A('B', (2, 3)), T.A('T', (2, 2, 2))],
     'f7': T.FLOAT_LEAVES,
     'sq': [T.A('a', (2,)), T.A('A', (2, 2)), T.A('T', (2, 2, 2))],
+    'aA': [T.A('a', (2,)), T.A('A', (2, 2))],
     'sq3': [T.A('a', (2,)), T.A('b', (3,)), T.A('A', (2, 2)), T.A('C', (3, 3))],
     'mixed': [T.A('a', (2,)), T.A('A', (2, 2)), T.A('I', (2,), 'i'), T.A('p', (2,), 'b'), T.A('z', (2,), 'c')],
     'int': [T.A('i', (), 'i'), T.A('I', (2,), 'i'), ('range', (3,)), T.LOOP_L, ('const', (-2, 'i')), ('const', (3, 'i')), ('const', ((1, 0), 'i')),
